@@ -67,7 +67,7 @@ def check(ctx):
         "model/Poly.v (results compared exactly inside Coq); C07 decided exactly on the implementation's output by a "
         "rational simplex whose certificates are re-checked by base/Farkas.v. non-trivial = at least one row dropped, "
         "or ValueError raised, or a context present; distinct by canonical input")
-    proved = ctx.prove("props/C07.v", ["proofs/PolyFacts.v"])
+    proved = ctx.prove("props/C07.v", ["proofs/PolyFacts.v", "proofs/PolyGenPolytope.v", "proofs/PolyGenReduce.v", "proofs/PolyGenFacts.v"])
     ctx.build(["model/Corr.vo", "base/Farkas.vo"])
     rng = random.Random(ctx.seed)
     n = (250 if ctx.quick else 20000) * (1 if proved else 3)
